@@ -12,9 +12,10 @@
   `KeysWf` is defined here as requested but no group-A proof needs it.
 -/
 import Rivia.Spec.MemfsJudge
+import Rivia.Lemmas.ModeBits
 
 namespace Rivia.Lemmas.RefineA
-open Rivia Rivia.Memfs Rivia.File Rivia.Spec Rivia.Spec.TreeFs
+open Rivia Rivia.Memfs Rivia.File Rivia.Spec Rivia.Spec.TreeFs Rivia.Lemmas.ModeBits
 
 /-! ### association lists -/
 
@@ -97,12 +98,14 @@ def KeysWf (s : State) : Prop :=
   (s.entries.all (fun kv => keyOk kv.1) && s.files.all (fun kv => keyOk kv.1) && keyOk s.cwd) = true
 instance (s : State) : Decidable (KeysWf s) := by unfold KeysWf; infer_instance
 
-/-- per-entry well-formedness that `Inv` does not state: exactly one of `dir`/`file`; the mode carries
-    the type bits of the kind; a link has a target and `rel` is that target relative to the link's
-    directory -/
+/-- per-entry well-formedness that `Inv` does not state: exactly one of `dir`/`file`; the mode is
+    canonical: it carries the type bits of the kind and, beyond them, permission bits only (true of
+    every `optsMode` result since the `mode_type_bits` repair); a link has a target and `rel` is that
+    target relative to the link's directory -/
 def entryOkB (k : FsPath) (e : Entry) : Bool :=
   decide (e.dir = !e.file) &&
-  decide (e.mode &&& typeBits (kindOf e) = typeBits (kindOf e)) &&
+  (decide (e.mode &&& typeBits (kindOf e) = typeBits (kindOf e)) &&
+    decide (e.mode - typeBits (kindOf e) < 0o10000)) &&
   (!e.link || match e.alt with
     | some t => decide (e.rel = relative (renderP t) (renderP k.dropLast))
     | none => false)
@@ -113,6 +116,7 @@ instance (s : State) : Decidable (EntriesOk s) := by unfold EntriesOk; infer_ins
 structure EntryFacts (k : FsPath) (e : Entry) : Prop where
   flags : e.dir = !e.file
   modeWf : e.mode &&& typeBits (kindOf e) = typeBits (kindOf e)
+  permWf : e.mode - typeBits (kindOf e) < 0o10000
   link : e.link = true → ∃ t, e.alt = some t ∧ e.rel = relative (renderP t) (renderP k.dropLast)
 
 theorem entriesOk_lookup {s : State} (h : EntriesOk s) {k : FsPath} {e : Entry}
@@ -121,7 +125,7 @@ theorem entriesOk_lookup {s : State} (h : EntriesOk s) {k : FsPath} {e : Entry}
   have h1 := List.all_eq_true.mp h _ hm
   simp only [entryOkB, Bool.and_eq_true, decide_eq_true_eq, Bool.or_eq_true, Bool.not_eq_true'] at h1
   obtain ⟨⟨h1, h2⟩, h3⟩ := h1
-  refine ⟨h1, h2, ?_⟩
+  refine ⟨h1, h2.1, h2.2, ?_⟩
   intro hl
   rcases h3 with h3 | h3
   · rw [hl] at h3; cases h3
@@ -314,6 +318,15 @@ theorem or_sub_of_and_eq (t : Nat) : ∀ m, m &&& t = t → t ||| (m - t) = m :=
         · have := hor.mp h1
           omega
       omega
+
+/-- a mode that carries the type bits `T` and nothing else above the permission bits is canonical -/
+theorem canon_of_wf (m T : Nat) (hT0 : T &&& 0o7777 = 0) (hw : m &&& T = T) (hp : m - T < 0o10000) :
+    (m &&& 0o7777) ||| T = m := by
+  have hm := or_sub_of_and_eq _ _ hw
+  generalize hq : m - T = q at *
+  have hq' := and_perm_of_lt q hp
+  have h1 : m &&& 0o7777 = q := by rw [← hm, Nat.and_or_distrib_right, hT0, hq']; simp
+  rw [h1, Nat.or_comm]; exact hm
 
 theorem absNode_mode {s : State} {k : FsPath} {e : Entry} (h : EntryFacts k e) :
     (absNode s k e).mode = e.mode := by
@@ -1071,7 +1084,7 @@ theorem absNode_mkDirEntry_none (s : State) (q : FsPath) (h : alLookup q s.files
 theorem absNode_mkDirEntry_some (s : State) (q : FsPath) (m : Nat) (hm : m < 0o10000) (h0 : m ≠ 0)
     (h : alLookup q s.files = none) :
     absNode s q (mkDirEntry q (some m)) = newDir m := by
-  simp [absNode, mkDirEntry, kindOf, optsMode, typeBits, newDir, h, h0, or_dirbit_sub m hm]
+  simp [absNode, mkDirEntry, kindOf, optsMode, typeBits, newDir, h, h0, and_perm_of_lt m hm, or_dirbit_sub m hm]
 
 /-- the keys `b/n1`, `b/n1/n2`, … -/
 def chainFrom (b : FsPath) : List Str → List FsPath
@@ -1675,9 +1688,22 @@ theorem entryOk_mkDirEntry (p : FsPath) (mode : Option Nat) :
     entryOkB (mkDirEntry p mode).path (mkDirEntry p mode) = true := by
   have hk : kindOf (mkDirEntry p mode) = .dir := rfl
   simp only [entryOkB, hk, typeBits, Bool.and_eq_true, decide_eq_true_eq, Bool.or_eq_true, Bool.not_eq_true']
-  refine ⟨⟨rfl, ?_⟩, Or.inl rfl⟩
-  simp only [mkDirEntry, optsMode, Bool.false_eq_true, if_false, if_true]
-  exact or_and_self _ _
+  refine ⟨⟨rfl, ?_, ?_⟩, Or.inl rfl⟩
+  · simp only [mkDirEntry, optsMode, Bool.false_eq_true, if_false, if_true]
+    exact or_and_self _ _
+  · cases mode with
+    | none =>
+      have : (mkDirEntry p none).mode = 0o40755 := rfl
+      rw [this]; decide
+    | some m =>
+      by_cases h0 : m = 0
+      · subst h0
+        have : (mkDirEntry p (some 0)).mode = 0o40755 := rfl
+        rw [this]; decide
+      · have : (mkDirEntry p (some m)).mode = (m &&& 0o7777) ||| 0o40000 := by
+          unfold mkDirEntry; simp [optsMode_some, h0]
+        rw [this, or_sub_typeBits _ _ (and_perm_lt m) (Or.inl rfl)]
+        exact and_perm_lt m
 
 theorem es_setFile (p : FsPath) (b : Bytes) : EntriesStable (setFile p b) := fun _ hs => hs
 
